@@ -1535,7 +1535,7 @@ def generate(seed, n_wf, n_fault, n_free, n_known=0):
         out.append(gen_fault(base.randrange(1 << 48), RULES[i % len(RULES)], i // len(RULES)))
     for _ in range(n_free):
         out.append(gen_free(base.randrange(1 << 48)))
-    for _ in range(n_fault // 2):
+    for _ in range(n_fault):
         out.append(gen_multi_fault(base.randrange(1 << 48), 2 + (_ % 2)))
     for _ in range(n_known):
         out.append(gen_known(base.randrange(1 << 48)))
